@@ -12,6 +12,7 @@ INVARIANT SvgAttrProbeOK
 INVARIANT BooleanAttrOK
 INVARIANT UrlAttrOK
 INVARIANT AttrProbeOK
+INVARIANT UrlWsProbeOK
 INVARIANT RawTagOK
 INVARIANT RawProbeOK
 INVARIANT BlockTagOK
